@@ -92,6 +92,9 @@ func (a *txnAnchors) ok(r *RuleRun) bool {
 
 func eachInstr(f *ssa.Function, fn func(ins ssa.Instruction)) {
 	for _, b := range f.Blocks {
+		if b == f.Recover {
+			continue // the recover block only re-returns the result cells
+		}
 		for _, ins := range b.Instrs {
 			fn(ins)
 		}
